@@ -38,6 +38,7 @@ type Gen struct {
 	RawPct      int  // percent of JSON inputs delivered as a hand-written byte string (padding, escapes, or malformed)
 	Links       bool // file ops also create symlinks (C20)
 	RepeatPct   int  // percent of result attachments that are repeated verbatim
+	ResPct      int  // extra percent of set commands that attach a result
 	AimPct      int  // percent of commands found by searching the model for a rare outcome class (aim.go)
 	IOPct       int  // percent of mutating commands that meet an I/O error (short write + ENOSPC, EIO on read, EMFILE on open)
 	lastRes     *Cmd
@@ -420,7 +421,7 @@ func (g *Gen) next2(m *Model) Step {
 			}
 			nf++
 		}
-		if g.R.Chance(1, 7) {
+		if g.R.Chance(1, 7) || g.ResPct > 0 && g.R.Intn(100) < g.ResPct {
 			g.addResult(&c)
 			nf++
 		}
